@@ -771,6 +771,121 @@ Section Keys.
     rewrite (Hfun _ _ _ _ _ E1 E2). auto.
   Qed.
 
+  (** ** [clean_shapes] in detail *)
+  Lemma empty_names_In l nm :
+    In nm (empty_names l) <-> exists e, In e l /\ sh_stmts e = [] /\ sh_name e = nm.
+  Proof.
+    unfold empty_names. rewrite in_map_iff. split.
+    - intros [e [En He]]. apply filter_In in He. destruct He as [He Hs]. exists e.
+      destruct (sh_stmts e); [auto | discriminate].
+    - intros [e [He [Hs En]]]. exists e. split; [exact En|]. apply filter_In. rewrite Hs. auto.
+  Qed.
+
+  Lemma empty_names_nil l : (forall s, In s l -> sh_stmts s <> []) -> empty_names l = [].
+  Proof.
+    intros H. destruct (empty_names l) as [|nm r] eqn:E; [reflexivity|].
+    assert (Hin : In nm (empty_names l)) by (rewrite E; left; reflexivity).
+    apply empty_names_In in Hin. destruct Hin as [e [He [Hs _]]]. contradiction (H e He Hs).
+  Qed.
+
+  Lemma filter_length_lt {A} (f : A -> bool) l x :
+    In x l -> f x = false -> (List.length (filter f l) < List.length l)%nat.
+  Proof.
+    induction l as [|y l IH]; intros Hin Hf; [destruct Hin|]. cbn.
+    destruct Hin as [->|Hin].
+    - rewrite Hf. pose proof (filter_length_le f l). lia.
+    - specialize (IH Hin Hf). destruct (f y); cbn; lia.
+  Qed.
+
+  Lemma Forall2_length' {A B} (R : A -> B -> Prop) l l' : Forall2 R l l' -> List.length l = List.length l'.
+  Proof. induction 1; cbn; congruence. Qed.
+
+  (** every surviving shape comes from a shape whose name is not that of an
+      empty shape *)
+  Lemma clean_shapes_origin fuel l l' :
+    (0 < fuel)%nat -> clean_shapes fuel l = inl l' ->
+    forall s', In s' l' -> exists s, In s l /\ shape_sub s' s /\ ~ In (sh_name s) (empty_names l).
+  Proof.
+    intros Hf H s' Hs'. destruct fuel as [|f]; [lia|]. cbn [clean_shapes] in H.
+    destruct (empty_names l) as [|nm names] eqn:En.
+    - injection H as <-. exists s'. split; [exact Hs'|]. split; [repeat split; auto; apply incl_refl | intros []].
+    - destruct (map_err (prune_shape (nm :: names)) (filter (fun s => negb (mem_str (sh_name s) (nm :: names))) l))
+        as [l2|e] eqn:Em; [|discriminate].
+      destruct (clean_shapes_sub f l2 l' H s' Hs') as [s2 [Hs2 (A1 & A2 & A3 & A4)]].
+      apply map_err_Forall2 in Em. destruct (Forall2_In_r _ _ _ _ Em Hs2) as [s [Hs Hp]].
+      apply filter_In in Hs. destruct Hs as [Hs Hnm]. apply negb_true_iff in Hnm.
+      destruct (prune_shape_sub _ _ _ Hp) as (B1 & B2 & B3 & B4).
+      exists s. split; [exact Hs|]. split.
+      + unfold shape_sub. rewrite A1, A2, A3, B1, B2, B3. repeat split; auto.
+        intros st Hst. apply A4 in Hst. apply B4 in Hst. tauto.
+      + intros Hin. apply mem_str_In in Hin. congruence.
+  Qed.
+
+  (** with the fuel [shex] gives, the loop ends without an empty shape *)
+  Lemma clean_shapes_no_empty fuel l l' :
+    (List.length l < fuel)%nat -> clean_shapes fuel l = inl l' -> empty_names l' = [].
+  Proof.
+    revert l l'; induction fuel as [|f IH]; intros l l' Hlen H; [lia|].
+    cbn [clean_shapes] in H. destruct (empty_names l) as [|nm names] eqn:En.
+    - injection H as <-. exact En.
+    - destruct (map_err (prune_shape (nm :: names)) (filter (fun s => negb (mem_str (sh_name s) (nm :: names))) l))
+        as [l2|e] eqn:Em; [|discriminate].
+      apply (IH l2 l'); [|exact H]. apply map_err_Forall2 in Em. rewrite <- (Forall2_length' _ _ _ Em).
+      assert (Hnm : In nm (empty_names l)) by (rewrite En; left; reflexivity).
+      apply empty_names_In in Hnm. destruct Hnm as [e [He [_ Hn]]].
+      assert (Hlt : (List.length (filter (fun s => negb (mem_str (sh_name s) (nm :: names))) l) < List.length l)%nat).
+      { apply (filter_length_lt _ l e He). apply negb_false_iff. apply mem_str_In. rewrite Hn. left; reflexivity. }
+      lia.
+  Qed.
+
+  (** domain for monotonicity under [remove_empty]: no statement refers to a
+      shape that is empty before cleaning *)
+  Definition no_ref_to_empty (l : list shape) : Prop :=
+    forall sh st e, In sh l -> In st (sh_stmts sh) -> In e l -> sh_stmts e = [] -> s_type st <> sh_name e.
+
+  (** on that domain cleaning is one round: the shapes whose name is the name
+      of an empty shape go, the others keep their statements *)
+  Lemma clean_shapes_dom fuel l l' :
+    no_ref_to_empty l -> (List.length l < fuel)%nat -> clean_shapes fuel l = inl l' ->
+    forall s, In s l -> ~ In (sh_name s) (empty_names l) ->
+    exists s', In s' l' /\ sh_name s' = sh_name s /\ sh_class s' = sh_class s /\ sh_n s' = sh_n s /\
+               forall st, In st (sh_stmts s') <-> In st (sh_stmts s).
+  Proof.
+    intros Hdom Hlen H s Hs Hnm. destruct fuel as [|f]; [lia|]. cbn [clean_shapes] in H.
+    destruct (empty_names l) as [|nm names] eqn:En.
+    - injection H as <-. exists s. repeat split; auto.
+    - set (nms := nm :: names) in *.
+      destruct (map_err (prune_shape nms) (filter (fun s => negb (mem_str (sh_name s) nms)) l)) as [l2|e] eqn:Em; [|discriminate].
+      apply map_err_Forall2 in Em.
+      assert (Hkeep : forall x x2, In x (filter (fun s => negb (mem_str (sh_name s) nms)) l) -> prune_shape nms x = inl x2 ->
+                      sh_name x2 = sh_name x /\ sh_class x2 = sh_class x /\ sh_n x2 = sh_n x /\
+                      (forall st, In st (sh_stmts x2) <-> In st (sh_stmts x)) /\ sh_stmts x2 <> []).
+      { intros x x2 Hx Hp. apply filter_In in Hx. destruct Hx as [Hx Hxn]. apply negb_true_iff in Hxn.
+        destruct (prune_shape_sub _ _ _ Hp) as (B1 & B2 & B3 & B4).
+        assert (Hall : forall st, In st (sh_stmts x2) <-> In st (sh_stmts x)).
+        { intros st. rewrite B4. split; [tauto|]. intros Hst. split; [exact Hst|].
+          destruct (mem_str (s_type st) nms) eqn:Em'; [|reflexivity]. exfalso.
+          apply mem_str_In in Em'. rewrite <- En in Em'. apply empty_names_In in Em'.
+          destruct Em' as [e0 [He0 [Hse0 Hne0]]]. apply (Hdom x st e0 Hx Hst He0 Hse0). auto. }
+        repeat split; auto; try apply Hall.
+        intros Hnil. destruct (sh_stmts x) as [|st0 r] eqn:Esx.
+        - assert (In (sh_name x) (empty_names l)) by (apply empty_names_In; exists x; auto).
+          rewrite En in H0. apply mem_str_In in H0. congruence.
+        - assert (In st0 (sh_stmts x2)) by (apply Hall; left; reflexivity). rewrite Hnil in H0. destruct H0. }
+      assert (Hl2 : empty_names l2 = []).
+      { apply empty_names_nil. intros x2 Hx2. destruct (Forall2_In_r _ _ _ _ Em Hx2) as [x [Hx Hp]].
+        destruct (Hkeep x x2 Hx Hp) as (_ & _ & _ & _ & Hne). exact Hne. }
+      assert (Hf : (0 < f)%nat).
+      { destruct l; [cbn in En; subst nms; discriminate | cbn in Hlen; lia]. }
+      destruct f as [|f']; [lia|]. cbn [clean_shapes] in H. rewrite Hl2 in H. injection H as <-.
+      assert (Hsf : In s (filter (fun s => negb (mem_str (sh_name s) nms)) l)).
+      { apply filter_In. split; [exact Hs|]. apply negb_true_iff.
+        destruct (mem_str (sh_name s) nms) eqn:E; [|reflexivity]. apply mem_str_In in E. contradiction. }
+      destruct (Forall2_In_l _ _ _ _ Em Hsf) as [s2 [Hs2 Hp]].
+      destruct (Hkeep s s2 Hsf Hp) as (K1' & K2' & K3' & K4' & _).
+      exists s2. repeat split; auto; apply K4'.
+  Qed.
+
   (** ** what needs laws of the frequency algebra
 
       [okN] singles out the class sizes and [okF] the frequency values on
@@ -879,6 +994,63 @@ Section Keys.
     Proof.
       intros Hi E. rewrite E in Hi. destruct (sh_stmts sh2) as [|st l]; [reflexivity|].
       destruct (Hi (skey st) (or_introl eq_refl)).
+    Qed.
+
+    Lemma incl_map_skey (a b : list stmt) : incl a b -> incl (map skey a) (map skey b).
+    Proof. intros H x Hx. apply in_map_iff in Hx. destruct Hx as [y [<- Hy]]. apply in_map, H, Hy. Qed.
+
+    (** K2 (C12), empty shapes removed, on the domain where no statement of
+        the lower-threshold run refers to an empty shape: every shape of the
+        higher-threshold run is a shape of the lower-threshold run, with at
+        least its keys *)
+    Theorem K2_clean thr1 thr2 P C l1 l2 s1 s2 :
+      okF thr1 -> okF thr2 -> counts_ok P C -> fle fa thr1 thr2 = true ->
+      Forall2 (fun ce sh => shex_class fa cfg thr1 C ce = inl sh) P l1 ->
+      Forall2 (fun ce sh => shex_class fa cfg thr2 C ce = inl sh) P l2 ->
+      clean_shapes (S (List.length l1)) l1 = inl s1 -> clean_shapes (S (List.length l2)) l2 = inl s2 ->
+      no_ref_to_empty l1 ->
+      forall sh2, In sh2 s2 ->
+      exists sh1, In sh1 s1 /\ sh_name sh1 = sh_name sh2 /\ sh_class sh1 = sh_class sh2 /\ sh_n sh1 = sh_n sh2 /\
+                  incl (map skey (sh_stmts sh2)) (map skey (sh_stmts sh1)).
+    Proof.
+      intros H1 H2 Hc Hle F1 F2 C1 C2 Hdom sh2' Hsh2'.
+      pose proof (pre_mono thr1 thr2 P C l1 l2 H1 H2 Hc Hle F1 F2) as M.
+      destruct (clean_shapes_origin _ l2 s2 (Nat.lt_0_succ _) C2 sh2' Hsh2') as [sh2 [Hsh2 [(A1 & A2 & A3 & A4) Hn2]]].
+      destruct (Forall2_In_r _ _ _ _ M Hsh2) as [sh1 [Hsh1 (B1 & B2 & B3 & B4)]].
+      assert (Hn1 : ~ In (sh_name sh1) (empty_names l1)).
+      { intros Hin. apply empty_names_In in Hin. destruct Hin as [e1 [He1 [Hs1 Hne1]]].
+        destruct (Forall2_In_l _ _ _ _ M He1) as [e2 [He2 (D1 & _ & _ & D4)]].
+        apply Hn2. apply empty_names_In. exists e2. split; [exact He2|]. split; [apply (empty_mono e1 e2 D4 Hs1)|].
+        congruence. }
+      destruct (clean_shapes_dom _ l1 s1 Hdom (Nat.lt_succ_diag_r _) C1 sh1 Hsh1 Hn1) as [sh1' [Hsh1' (E1 & E2 & E3 & E4)]].
+      exists sh1'. split; [exact Hsh1'|]. rewrite E1, E2, E3, A1, A2, A3. repeat split; auto.
+      intros key Hk. apply (incl_map_skey _ _ A4) in Hk. apply B4 in Hk.
+      apply in_map_iff in Hk. destruct Hk as [st [<- Hst]]. apply in_map. apply E4. exact Hst.
+    Qed.
+
+    Theorem K2_remove thr1 thr2 P C s1 s2 :
+      x_remove_empty cfg = true -> okF thr1 -> okF thr2 -> counts_ok P C -> fle fa thr1 thr2 = true ->
+      shex fa cfg thr1 P C = inl s1 -> shex fa cfg thr2 P C = inl s2 ->
+      (forall l1, map_err (shex_class fa cfg thr1 C) P = inl l1 -> no_ref_to_empty l1) ->
+      forall sh2, In sh2 s2 ->
+      exists sh1, In sh1 s1 /\ sh_name sh1 = sh_name sh2 /\ sh_class sh1 = sh_class sh2 /\ sh_n sh1 = sh_n sh2 /\
+                  incl (map skey (sh_stmts sh2)) (map skey (sh_stmts sh1)).
+    Proof.
+      intros Hre H1 H2 Hc Hle E1 E2 Hdom.
+      destruct (shex_unfold thr1 P C s1 E1) as [l1 [F1 G1]]. destruct (shex_unfold thr2 P C s2 E2) as [l2 [F2 G2]].
+      rewrite Hre in G1, G2.
+      apply (K2_clean thr1 thr2 P C l1 l2 s1 s2); auto. apply Hdom. apply map_err_Forall2. exact F1.
+    Qed.
+
+    (** after cleaning no shape is empty *)
+    Theorem shex_remove_no_empty thr P C shapes :
+      x_remove_empty cfg = true -> shex fa cfg thr P C = inl shapes ->
+      forall sh, In sh shapes -> sh_stmts sh <> [].
+    Proof.
+      intros Hre H sh Hsh Hnil. destruct (shex_unfold thr P C shapes H) as [l [_ G]]. rewrite Hre in G.
+      pose proof (clean_shapes_no_empty _ l shapes (Nat.lt_succ_diag_r _) G) as Hno.
+      assert (In (sh_name sh) (empty_names shapes)) by (apply empty_names_In; exists sh; auto).
+      rewrite Hno in H0. destruct H0.
     Qed.
   End Laws.
 End Keys.
